@@ -9,8 +9,9 @@ Decides, for the API layer (automerge.rs, autocommit.rs, transaction/*, hydrate*
          * `self.transaction…unwrap()` in AutoCommit is dominated by ensure_transaction_open(), which leaves it Some;
          * typestate: the `inner` slot of Transaction / OwnedTransaction is emptied only by functions that consume `self`
            (or by Drop), so `inner.as_mut().unwrap()` in a `&mut self` method cannot observe None;
-         * hydrate: in List::apply / Text::apply every call of a panicking sequence API is control-dependent on a comparison
-           of the patch position with the current len() (the guard that turns a stale patch into InvalidIndex);
+         * hydrate: in List::apply / Text::apply every call of a panicking sequence API is control-dependent on one comparison
+           that relates the current len() to *all* patch fields deciding which positions are touched (the index argument and
+           the length bounding an enclosing loop) — the guard that turns a stale patch into InvalidIndex;
          * index / split / division patterns shared with C15;
  (R7e) entry points resolve caller-supplied object ids only through exid_to_obj / exid_to_opid (errors propagate): every
        ReadDoc / Transactable method of Automerge and TransactionInner that takes an ExId hands it to one of the
@@ -72,18 +73,43 @@ def inner_emptied_only_by_consumers(f):
     return seen, bad
 
 
-def len_controlled(b, bi, patch_param_locals=None):
-    """is block bi control-dependent on a comparison one side of which derives from a len() call? returns the guard description"""
+def patch_fields(b, op):
+    """named fields of the patch (`.index`, `.length`, ...) an operand derives from"""
+    pv = b.provenance(op, through_calls=True)
+    out = set()
+    for l, pr in pv.places:
+        og = b.origin(l, pr)
+        out |= {e for e in og[1] if e in (".index", ".length")}
+    return out, pv
+
+
+def len_controlled(b, bi, t):
+    """the positions a sequence edit touches are determined by patch fields (the index argument; the length that bounds an
+    enclosing loop). The block must be control-dependent on ONE comparison that relates all of those fields to the current len():
+    `index > len` and `length > len` separately do not bound index + length."""
+    used = set()
+    for a in t["args"][1:2]:
+        used |= patch_fields(b, a)[0]
+    for xb, blk in enumerate(b.blocks):
+        if blk.get("cleanup"):
+            continue
+        for st in blk["st"]:
+            rv = st["rv"]
+            if rv["k"] == "Agg" and rv.get("adt") == "core::ops::range::Range" and len(rv.get("o", [])) >= 2 and b.block_dominates(xb, bi) and xb != bi:
+                used |= patch_fields(b, rv["o"][1])[0]
+    if not used:
+        used = {".index"}
     for sb, sw in b.switches():
         src = b.bool_operand_source(sw["op"])
         if not src or src["kind"] != "bin" or src["op"] not in ("Lt", "Le", "Gt", "Ge"):
             continue
-        has_len = False
+        has_len, seen = False, set()
         for o in src["o"]:
-            pv = b.provenance(o, through_calls=True)
+            fl, pv = patch_fields(b, o)
+            seen |= fl
             if any(norm_fn(c).endswith("::len") for c in pv.callees()):
                 has_len = True
-        if not has_len:
+        if not has_len or not used <= seen:
             continue
         for tb in set([x for _, x in sw["targets"]] + [sw["otherwise"]]):
             if b.edges_dominate([(sb, tb)], bi):
@@ -135,7 +161,7 @@ def run(ctx):
                     if b.local_ty(1).startswith("&") or True:
                         why = "typestate: inner is emptied only by methods that consume the handle"
             if not why and kind == "seq-api" and "hydrate" in np_:
-                if len_controlled(b, bi):
+                if len_controlled(b, bi, t):
                     why = "control-dependent on a comparison with len(): a position outside the value is turned into InvalidIndex first"
             if why:
                 nauto += 1
